@@ -167,6 +167,71 @@ pub fn program(stmt: &str) -> String {
     format!("{}{}\n{}", HEADER, stmt, FOOTER)
 }
 
+/// The containers a statement can stand in besides the module level.
+pub const CONTAINERS: [&str; 8] = [
+    "SUB body",
+    "FUNCTION body",
+    "STATIC SUB body, called twice",
+    "single-line IF",
+    "block IF inside a FOR body",
+    "CASE block",
+    "ELSE block of a WHILE body",
+    "SUB body with the declarations DIM SHARED at module level",
+];
+
+/// The program text for one instantiated statement inside container `c` (see CONTAINERS). Inside a
+/// subprogram the declarations of HEADER are repeated locally (or shared), and the label L1 exists there.
+pub fn program_in(c: usize, stmt: &str) -> String {
+    let types = "TYPE T\n  F AS INTEGER\n  S AS STRING * 3\nEND TYPE\nDECLARE FUNCTION F (X)\nDECLARE FUNCTION G$ (X$)\n";
+    let dims = "DIM R AS T\nDIM A(5)\nDIM A$(5)\n";
+    let fns = "FUNCTION F (X)\n  F = X\nEND FUNCTION\nFUNCTION G$ (X$)\n  G$ = X$\nEND FUNCTION\nSUB P (X)\nEND SUB\nSUB Q (X$, Y%)\nEND SUB\n";
+    match c {
+        0 => format!("{}W\nEND\n{}SUB W\n{}{}\nEXIT SUB\nL1:\nRETURN\nEND SUB\n", types, fns, dims, stmt),
+        1 => format!("{}PRINT WF(1)\nEND\n{}FUNCTION WF (N)\n{}{}\nWF = 1\nEXIT FUNCTION\nL1:\nRETURN\nEND FUNCTION\n", types, fns, dims, stmt),
+        2 => format!("{}W\nW\nEND\n{}SUB W STATIC\n{}{}\nEXIT SUB\nL1:\nRETURN\nEND SUB\n", types, fns, dims.replace("DIM ", "DIM "), stmt),
+        3 => {
+            // only statements that fit on one line
+            if stmt.contains('\n') {
+                return String::new();
+            }
+            format!("{}IF 1 THEN {}\n{}", HEADER, stmt, FOOTER)
+        }
+        4 => format!("{}FOR II = 1 TO 2\nIF II = 2 THEN\n{}\nEND IF\nNEXT\n{}", HEADER, stmt, FOOTER),
+        5 => format!("{}SELECT CASE 1\nCASE 1\n{}\nCASE ELSE\nEND SELECT\n{}", HEADER, stmt, FOOTER),
+        6 => format!("{}WW = 0\nWHILE WW < 1\nWW = WW + 1\nIF 0 THEN\nELSE\n{}\nEND IF\nWEND\n{}", HEADER, stmt, FOOTER),
+        _ => format!("{}{}W\nEND\n{}SUB W\n{}\nEXIT SUB\nL1:\nRETURN\nEND SUB\n", types, dims.replace("DIM ", "DIM SHARED "), fns, stmt),
+    }
+}
+
+/// Every template with its default operands and with one free slot, inside every container.
+pub fn instantiate_in_containers(one_free_slot_in: &[usize]) -> Vec<String> {
+    let mut out = vec![];
+    for c in 0..CONTAINERS.len() {
+        let free = one_free_slot_in.contains(&c);
+        for t in TEMPLATES {
+            let t = parse_template(t);
+            let defaults: Vec<&str> = t.defaults.iter().map(|s| s.as_str()).collect();
+            let mut stmts = vec![t.fill(&defaults)];
+            if free {
+                for i in 0..t.slots() {
+                    for op in OPERANDS {
+                        let mut ops = defaults.clone();
+                        ops[i] = op;
+                        stmts.push(t.fill(&ops));
+                    }
+                }
+            }
+            for st in stmts {
+                let p = program_in(c, &st);
+                if !p.is_empty() {
+                    out.push(p);
+                }
+            }
+        }
+    }
+    out
+}
+
 // ---------------------------------------------------------------------------
 // Statement soups: every sequence of up to n statements from a menu of simple
 // statements (assignments, jumps, labels, handlers, one-line loops, file I/O).
